@@ -14,12 +14,16 @@ SPACES = {
     "pdf": ([65, 97, 49, 59, 44, 32, 128], [((), 6, 7, None), ((49, 49, 59, 59, 59), 7, 7, [97, 128, 59])]),
     "aztec": ([65, 97, 49, 32, 33, 64, 128, 44, 46, 58, 13, 10, 34], [((), 4, 5, None), ((33, 33, 33, 33, 33), 2, 2, None)]),
     "dm": ([53, 65, 200, 181, 48], [((), 5, 7, None), ((65,) * 20, 3, 4, None)]),     # 181 = 0xB5: a byte above 127 whose low seven bits are a digit
+    "qr": ([49, 57, 65, 58, 97, 43, 32, 200], [((), 3, 4, None), ((57,) * 30, 2, 3, None), ((65,) * 21, 2, 3, None),
+                                                   # runs that cross the version-1 capacity at level H in each mode (17 digits / 10 alphanumeric / 7 bytes) and at level L (41 / 25 / 17)
+                                                   ((49,) * 15, 2, 3, None), ((65,) * 8, 2, 3, None), ((97,) * 5, 2, 3, None),
+                                                   ((49,) * 39, 2, 3, None), ((65,) * 23, 2, 3, None), ((97,) * 15, 2, 3, None)]),   # each string x 4 levels x 4 API modes
     "c128": ([49, 55, 241, 242, 65, 97, 1, 200], [((), 5, 7, None)]),
 }
 
 
 def conformance(chk, sym, quick, nshards=8, drift_cap=150):
-    """Returns (wrong, drift_sample): lists of contents (lists of ints). Records coverage in chk.cov['encoder_model_conformance']."""
+    """Returns (wrong, drift_sample): lists of recorded events (content = list of ints, qr: p = [level, API mode]). Records coverage in chk.cov['encoder_model_conformance']."""
     cov = chk.cov.setdefault("encoder_model_conformance", {})
     try:
         binary = vlib.build_harness(chk.work, tags="verif verifenc", cmd="encdump")
@@ -43,8 +47,8 @@ def conformance(chk, sym, quick, nshards=8, drift_cap=150):
     chk.cov["transitions"] += tr
     if any(b["why"] == "unknown-event" for b in bad):
         raise vlib.Inconclusive("TraceEnc met an unknown event")
-    wrong = [b["event"]["content"] for b in bad if b["why"] == "hl-wrong"]
-    drift = [b["event"]["content"] for b in bad if b["why"] == "drift"]
+    wrong = [b["event"] for b in bad if b["why"] == "hl-wrong"]
+    drift = [b["event"] for b in bad if b["why"] == "drift"]
     rng = random.Random(chk.rng.random())
     sample = drift if len(drift) <= drift_cap else rng.sample(drift, drift_cap)
     cov[sym] = dict(strings_compared=len(evs), identical_to_model=sum(x.get("same", 0) for x in extras), drift=len(drift), drift_revalidated_through_reader=len(sample),
